@@ -558,7 +558,17 @@ def j_maximum(I, args, kw):
     it = _I()
     if it.is_num(b) and D(b).is_zero():
         return nf.elementwise("Relu", _arr(a))
-    raise Undecided("maximum with non-zero operand")
+    if it.is_num(a) and D(a).is_zero():
+        return nf.elementwise("Relu", _arr(b))
+    # max(a, b) = b + relu(a - b)   (exact; a floor `maximum(x, 1e-10)` is therefore a different function from x)
+    a, b = _arr(a), _arr(b)
+    return nf.add(b, nf.elementwise("Relu", nf.add(a, b, -1)))
+
+
+def j_minimum(I, args, kw):
+    # min(a, b) = b - relu(b - a)
+    a, b = _arr(args[0]), _arr(args[1])
+    return nf.add(b, nf.elementwise("Relu", nf.add(b, a, -1)), -1)
 
 
 def j_clip(I, args, kw):
@@ -1446,7 +1456,7 @@ EXT = {
     "jax.numpy.atleast_1d": j_atleast_1d, "jax.numpy.power": j_power, "jax.numpy.reciprocal": j_reciprocal, "jax.numpy.mean": j_mean,
     "jax.numpy.full": j_full, "jax.numpy.full_like": j_full_like, "jax.numpy.diag": j_diag, "functools.partial": f_partial, "jax.numpy.eye": j_eye, "jax.numpy.zeros": j_zeros, "jax.numpy.ones": j_ones,
     "jax.numpy.empty": j_empty, "jax.numpy.arange": j_arange, "jax.numpy.array": j_array,
-    "jax.numpy.where": j_where, "jax.numpy.maximum": j_maximum, "jax.numpy.clip": j_clip, "jax.numpy.argsort": j_argsort, "jax.numpy.pad": j_pad, "jax.numpy.sort": j_sort, "jax.numpy.max": j_max, "jax.numpy.all": j_all, "jax.numpy.allclose": j_allclose, "jax.numpy.array_equal": j_allclose,
+    "jax.numpy.where": j_where, "jax.numpy.maximum": j_maximum, "jax.numpy.minimum": j_minimum, "jax.numpy.clip": j_clip, "jax.numpy.argsort": j_argsort, "jax.numpy.pad": j_pad, "jax.numpy.sort": j_sort, "jax.numpy.max": j_max, "jax.numpy.all": j_all, "jax.numpy.allclose": j_allclose, "jax.numpy.array_equal": j_allclose,
     "jax.numpy.any": j_any, "jax.numpy.linalg.norm": j_norm,
     "jax.numpy.logical_and": j_logical_and, "jax.numpy.logical_or": j_logical_or, "jax.numpy.logical_not": j_logical_not, "jax.numpy.greater_equal": _cmp0("Ge"),
     "jax.numpy.less_equal": _cmp0("Le"), "jax.numpy.equal": _cmp0("Eq"), "jax.numpy.isfinite": j_isfinite,
